@@ -24,12 +24,13 @@ RULE = (
     "Request targets from an adversarial path grammar (real collection names, '..', '.', empty segment, %2e%2e, %2E., ..%2f, %2f, %5c.., doubly encoded ..%252f and %252e%252e, several encoded climbs inside one segment, '..;x', 300-char segment, 'etc', names of sentinel "
     "directories that exist next to the data directory - including data.bak, whose name starts with the root's own name - and '.git'; 1-8 segments after a real base path, optional trailing slash, "
     "optional route prefix, targets without leading '/') x method {GET, HEAD, PUT, POST, DELETE, MKCOL, extended MKCOL, MKCALENDAR, PROPFIND Depth 0/1, PROPPATCH, REPORT multiget (hrefs from the same "
-    "grammar), sync, query, OPTIONS}. Engine A: raw bytes (over a unix-domain socket) to a real listening `python -m xandikos`-equivalent process started through a launcher that installs an audit hook; engine B: the WSGI callable "
+    "grammar), sync, query, OPTIONS}; a third of the PUT/POST bodies carry a path-like UID (relative climbs, '..', an absolute name inside the harness' scratch area, the sibling data.bak, "
+    "encoded climbs) and are mostly sent to collections that exist. Engine A: raw bytes (over a unix-domain socket) to a real listening `python -m xandikos`-equivalent process started through a launcher that installs an audit hook; engine B: the WSGI callable "
     "in-process with PATH_INFO as a WSGI server decodes it (dot segments kept, %2f decoded) under an audit hook. Oracles: (1) a snapshot (names, hashes) of everything around the data directory "
     "(secret/, an existing git repository victim/, an empty esc/, data.bak/) is unchanged after every request; (2) no audited open/listdir/scandir/mkdir/rename/remove/rmdir/rmtree/chmod event of the "
     "request's lifetime resolves to a path outside data/ other than the interpreter, library, source and git-config files seen during a warm-up of benign requests; (3) the request is refused (4xx) with an "
     "unchanged data tree, or its status class and the resulting tree of names under data/ equal those of the lexically normalised target sent to a twin server on a copy of the data directory (reads: to "
-    "the same server; 5xx with unchanged tree: recorded, not a violation). Non-trivial: a target whose naive join with the data root leaves it at some prefix; distinct by (method, target)."
+    "the same server; 5xx with unchanged tree: recorded, not a violation). Non-trivial: a target whose naive join with the data root leaves it at some prefix, or an accepted PUT/POST with a path-like UID; distinct by (method, target[, uid kind])."
 )
 
 SEGMENTS = ["..", "..", "..", ".", "", "%2e%2e", "%2E.", ".%2e", "..%2f", "..%2f..", "%2f", "%5c..", "..;x", "..%252f", "%252e%252e", "..%252F..%252F..%252F..%252F..%252Fdd.ics", "..%2f..%2f..%2f..%2f..%2fsd.ics", "%252e%252e%252fx", "A" * 300, "etc", "secret", "victim", "esc", "data.bak", "data2", "data", ".git", "user", "calendars", "calendar", "x.ics", "newcol", "a.txt", "tmp"]
@@ -37,6 +38,21 @@ BASES = ["", "/user", "/user/calendars", "/user/calendars/calendar", "/user/cont
 METHODS = ["GET", "HEAD", "PUT", "POST", "DELETE", "MKCOL", "MKCOL-ext", "MKCALENDAR", "PROPFIND0", "PROPFIND1", "PROPPATCH", "REPORT-multiget", "REPORT-sync", "REPORT-query", "OPTIONS"]
 
 ICS = b"BEGIN:VCALENDAR\r\nVERSION:2.0\r\nPRODID:-//xv//c13//EN\r\nBEGIN:VEVENT\r\nUID:%s\r\nDTSTART:20200101T000000Z\r\nSUMMARY:c13\r\nEND:VEVENT\r\nEND:VCALENDAR\r\n"
+
+
+HOSTILE_UIDS = ["climb", "climb-ext", "climb-deep", "dotdot", "abs", "sibling", "encoded"]
+
+
+def hostile_uid(kind, abs_base):
+    return {
+        "climb": "../../../../../../uid-escape",
+        "climb-ext": "../../../../../uid-escape.ics",
+        "climb-deep": "../" * 9 + "uid-escape-deep",
+        "dotdot": "..",
+        "abs": os.path.join(abs_base, "uid-escape-abs"),
+        "sibling": "../../../../data.bak/uid-escape",
+        "encoded": "..%2F..%2F..%2F..%2F..%2Fuid-escape-enc",
+    }[kind]
 
 
 TERMINALS = [
@@ -78,6 +94,12 @@ def request(draw, prefix):
     if m == "REPORT-multiget":
         req["hrefs"] = [draw(target(prefix)) for _ in range(draw(st.integers(1, 3)))]
     req["uid"] = draw(st.integers(0, 99))
+    if m in ("PUT", "POST") and draw(st.integers(0, 2)) == 0:
+        # path-like text in the body (the UID), mostly sent to a collection that exists
+        req["uidv"] = draw(st.sampled_from(HOSTILE_UIDS))
+        if draw(st.integers(0, 3)) > 0:
+            base = draw(st.sampled_from(["/user/calendars/calendar/", "/user/calendars/calendar", "/user/calendars/", "/user/contacts/addressbook/"]))
+            req["t"] = prefix.rstrip("/") + base + (draw(st.sampled_from(["u.ics", "ev.ics", "..%2Fu.ics"])) if m == "PUT" and base.endswith("/") else "")
     return req
 
 
@@ -122,6 +144,8 @@ def build(req, tgt):
     """-> (method, headers, body) for target tgt."""
     m = req["m"]
     uid = ("c13-%d" % req.get("uid", 0)).encode()
+    if req.get("uidv"):
+        uid = hostile_uid(req["uidv"], req.get("abs_base", "/nonexistent-xv-c13")).encode()
     if m in ("GET", "HEAD", "DELETE", "OPTIONS"):
         return m, [], None
     if m == "PUT":
@@ -423,6 +447,9 @@ def run_session_with_twin(engine, prefix, reqs):
                             allow_exact.add(rp)
         snap0 = snapshot_outside(server.scratch)
         for req in reqs:
+            if req.get("uidv"):
+                req = dict(req, abs_base=top_of(server.scratch))  # absolute names point into the harness' own scratch area
+                out["stats"][f"{engine}:hostile-uid:{req['m']}"] += 1
             tgt = req["t"]
             tree0 = tree_names(server.data)
             ntgt = normalised_target(tgt, prefix)
@@ -442,7 +469,9 @@ def run_session_with_twin(engine, prefix, reqs):
             lines = server.new_audit_lines()
             out["evaluations"] += 1
             out["stats"][f"{engine}:{req['m']}:{r.status // 100}xx"] += 1
-            case = {"engine": engine, "prefix": prefix, "request": req}
+            case = {"engine": engine, "prefix": prefix, "request": {k: v for k, v in req.items() if k != "abs_base"}}
+            if req.get("uidv") and r.status in (200, 201, 204):
+                out["nontrivial"].add(f"{req['m']} {tgt} uid={req['uidv']}")
             if escapes_root(tgt, prefix) or any(escapes_root(h, prefix) for h in req.get("hrefs", [])):
                 out["nontrivial"].add(f"{req['m']} {tgt} {req.get('hrefs', '')}")
             bad = audit_violations(lines, server.scratch, allow_exact, ALLOW_PREFIX)
